@@ -180,6 +180,116 @@ func guardedStreamRT(c *h.Ctx) {
 	}
 }
 
+// guardedNestedRT: values with named types *inside* (records with fields of named types, arrays
+// and sets of named types, the same names again in later values): the guard of
+// zson_roundtrip_stream_nested_partial ⇒ the real stream round-trips in every scope.
+func guardedNestedRT(c *h.Ctx) {
+	m := c.Model()
+	n := c.N(300, 6000)
+	for i := 0; i < n; i++ {
+		r := c.Rng
+		pg := &gen{r: r, plain: true, tame: true}
+		names := []string{"x", "y", "port", "a.b", "é"}
+		r.Shuffle(len(names), func(i, j int) { names[i], names[j] = names[j], names[i] })
+		var pool []*TSpec
+		var bs []string
+		for k := 0; k < 1+r.Intn(3); k++ {
+			u := pg.genType(1 + r.Intn(2))
+			for u.Kind == "union" || u.Kind == "enum" {
+				u = pg.genType(1 + r.Intn(2))
+			}
+			pool = append(pool, named(names[k], u))
+		}
+		pick := func() *TSpec { return cloneT(pool[r.Intn(len(pool))]) }
+		var spine func(d int) *TSpec
+		spine = func(d int) *TSpec {
+			switch k := r.Intn(6); {
+			case d <= 0 || k == 0:
+				return pick()
+			case k == 1:
+				return arr(spine(d - 1))
+			case k == 2:
+				return set(pick())
+			case k == 3:
+				t := pg.genType(1)
+				for t.Kind == "union" {
+					t = pg.genType(1)
+				}
+				return t
+			default:
+				rec := &TSpec{Kind: "record"}
+				for j, fn := range []string{"a", "b", "c"}[:1+r.Intn(3)] {
+					ft := spine(d - 1)
+					if j == 0 && r.Intn(2) == 0 {
+						ft = pick()
+					}
+					rec.Fields = append(rec.Fields, TField{Name: fn, Type: ft})
+				}
+				return rec
+			}
+		}
+		cs := &rtCase{Mode: []string{"value", "record", "writer", "format", "format"}[r.Intn(5)], Pretty: []int{0, 2, 4}[r.Intn(3)]}
+		if (cs.Mode == "writer" || cs.Mode == "format") && r.Intn(2) == 0 {
+			cs.Persist = []string{".*", "^x$"}[r.Intn(2)]
+		}
+		nv := 1 + r.Intn(3)
+		if cs.Mode == "value" {
+			nv = 1
+		}
+		for k := 0; k < nv; k++ {
+			t := spine(2)
+			cs.Vals = append(cs.Vals, tv{t, pg.genVal(t, 3, 0)})
+		}
+		zctx := zed.NewContext()
+		var items []string
+		bad := false
+		for _, x := range cs.Vals {
+			val, err := makeValue(zctx, x.T, x.V)
+			if err != nil {
+				bad = true
+				break
+			}
+			items = append(items, "("+modelTy(val.Type())+" "+modelVal(zctx, val.Type(), val.Bytes())+")")
+		}
+		if bad {
+			continue
+		}
+		bs = bs[:0]
+		for _, p := range pool {
+			pt, err := p.Build(zctx)
+			if err != nil {
+				bad = true
+				break
+			}
+			bs = append(bs, "("+HexAtom([]byte(p.Name))+" "+modelTy(pt)+")")
+		}
+		if bad {
+			continue
+		}
+		ans := m.Call("(C02 guardnested (" + strings.Join(bs, " ") + ") " + strings.Join(items, " ") + ")")
+		c.Eval("guardednested" + caseKey(cs))
+		c.Res.ModelCases++
+		if ans != "1" {
+			c.Stat("guardednested:guard-false")
+			continue
+		}
+		if caseHazards(cs).any() {
+			c.Stat("guardednested:skipped:text-hazard")
+			checkRT(c, cs, true)
+			continue
+		}
+		c.Stat("guardednested:guard-holds:" + cs.Mode)
+		res := runRT(cs)
+		if !res.ok {
+			kind := "oracle"
+			if res.panic {
+				kind = "panic"
+			}
+			c.Fail(kind, "C02:roundtrip:guarded-nested-fails", fmt.Sprintf("the guard of zson_roundtrip_stream_nested_partial holds but the real stream does not round-trip (%s: %s); text=%q", res.class, res.detail, clip(res.text, 300)), replayObj{Check: "oracle", RT: cs})
+		}
+	}
+}
+
 // ---- quote -------------------------------------------------------------------------------
 
 var quotePool = []string{
